@@ -29,6 +29,8 @@ func init() {
 			m.newAssertChecker(s).Run("R-ASSERT", all)
 			m.newBoundsChecker(s).Run("R-BOUNDS", "R-DIVGUARD", all)
 			m.RunPanicCall(s, "R-PANICCALL", all)
+			m.RunNilRet(s, "R-NILRET", all)
+			m.RunNilField(s, "R-NILFIELD", all)
 			m.RunProgress(s, "R-PROGRESS")
 			m.RunDelim(s, "R-DELIM")
 			s.RequireMin("R-PATHAPI", 10, "ext/dir call sites, registration, name function, 3 returns, layouts, lookup, EvaluateFile")
